@@ -8,7 +8,8 @@
 EXTENDS Integers, Sequences, FiniteSets, TLC, Json
 CONSTANT N
 VMs == {"A", "B"}
-Fields == {"clauses", "consulted", "dynamic", "ops", "double_quotes", "unknown", "debug", "char_conv_flag", "char_conv", "alias", "output", "input", "std_input"}   \* std_input: an interpreter closes ITS standard input
+Fields == {"clauses", "consulted", "dynamic", "ops", "double_quotes", "unknown", "debug", "char_conv_flag", "char_conv", "alias", "output", "input", "std_input",
+           "ops_read"}     \* an operator of its own, observed through what the READER makes of a query text (double_quotes is observed that way, too)   \* std_input: an interpreter closes ITS standard input
 VARIABLES vm, hist, done
 vars == <<vm, hist, done>>
 Init == vm = [i \in VMs |-> [f \in Fields |-> "init"]] /\ hist = <<>> /\ done = FALSE
